@@ -76,10 +76,19 @@ TAG_NAMES = ["t1", "t2", "rel 1.0", "étiquette"]
 VERB_CLASSES = ["read", "idem", "semi", "stream", "mutate", "semivfs"]
 # branch.conf-backed values: a local branch object keeps changes in memory until its write
 # lock is released, the server writes through on every verb; compared when unlocked only
+# verbs an operation is expected to use ("verb:<name>" aims a reset at the n-th request with that verb)
+_FETCH_VERBS = ["Repository.insert_stream_1.19", "Repository.insert_stream_1.19", "Repository.get_parent_map", "Branch.lock_write", "Branch.unlock", "Branch.set_last_revision_info", "Repository.lock_write", "Repository.unlock"]
+OP_VERBS = {
+    "commit": ["append", "append", "append", "append", "append", "put", "put", "rename", "move", "mkdir", "put_non_atomic", "delete", "rmdir", "readv", "Branch.set_last_revision_info", "Branch.unlock"],
+    "pull": _FETCH_VERBS,
+    "push": _FETCH_VERBS,
+    "fetch": _FETCH_VERBS,
+    "stack": ["BzrDirFormat.initialize", "BzrDir.create_repository", "BzrDir.create_branch", "Branch.put_config_file", "Repository.insert_stream_1.19", "Branch.set_last_revision_info", "mkdir"],
+}
 DEFERRED = ("conf", "parent", "stacked")
 # verb classes an operation is expected to use (only to aim resets; nothing is judged by it)
 OP_CLASSES = {
-    "commit": ["read", "idem", "semi", "mutate", "semivfs", "semivfs"],
+    "commit": ["read", "idem", "idem", "idem", "semi", "mutate", "mutate", "semivfs", "semivfs"],
     "pull": ["read", "idem", "semi", "stream", "stream"],
     "push": ["read", "idem", "semi", "stream", "stream"],
     "fetch": ["read", "semi", "stream", "stream"],
@@ -132,7 +141,7 @@ def generate(rng, tier):
     ops = []
     nops = rng.randint(3, 12)
     weights = {
-        "commit": 3,
+        "commit": 5,
         "pull": 4,
         "push": 3,
         "fetch": 2,
@@ -203,7 +212,10 @@ def generate(rng, tier):
             locked = False
             ops.append({"op": "unlock"})
         elif k == "parent_map":
-            keys = sorted({rng.choice(sorted(revs) + ["nope-1", "null:"]) for _ in range(rng.randint(1, 4))})
+            keys = {rng.choice(sorted(revs) + ["nope-1"]) for _ in range(rng.randint(1, 4))}
+            if rng.random() < 0.12:
+                keys.add("null:")
+            keys = sorted(keys)
             ops.append({"op": "parent_map", "keys": keys})
         elif k in ("rev", "tree", "revno_of", "has_rev"):
             ops.append({"op": k, "rev": some_rev})
@@ -241,14 +253,18 @@ def generate(rng, tier):
         "seg": {"m": rng.choice(["hot", "hot", "rand", "whole"]), "ph": rng.choice([0.1, 0.3, 0.6]), "sh": rng.random() < 0.6, "s": rng.randrange(1 << 30)},
         "resets": [],
     }
-    if rng.random() < 0.6:
-        i = rng.randrange(len(ops))
+    if rng.random() < 0.65:
+        i = rng.choices(range(len(ops)), [(10 if o["op"] == "commit" else 4) if o["op"] in ("commit", "pull", "push", "fetch", "stack") else (2 if o["op"] in OP_CLASSES else 1) for o in ops])[0]
         classes = OP_CLASSES.get(ops[i]["op"], ["read"])
+        deep = ops[i]["op"] == "commit"  # a commit through the VFS verbs makes dozens of requests
+        cls = rng.choice(classes + ["any"])
+        if ops[i]["op"] in OP_VERBS and rng.random() < (0.6 if deep else 0.4):
+            cls = "verb:" + rng.choice(OP_VERBS[ops[i]["op"]])
         plan["resets"].append(
             {
                 "op": i,
-                "cls": rng.choice(classes + ["any"]),
-                "nth": rng.choice([0, 0, 0, 0, 1, 1, 2, 3]),
+                "cls": cls,
+                "nth": rng.choice([0, 1, 1, 2, 2, 3, 4, 5, 6, 8]) if deep else rng.choice([0, 0, 0, 0, 1, 1, 2, 3]),
                 "kind": rng.choice(["send", "eof_after", "eof_after"]),
                 "write": rng.choice([0, 0, 1, 2]),
             }
@@ -317,6 +333,7 @@ class _Watch:
         self.armed = None  # dict describing the reset that was placed
         self.op_verbs = []
         self.retried = []
+        self.unsafe = []  # verbs re-sent although their body stream had been (partly) consumed
 
 
 def _watch():
@@ -344,13 +361,17 @@ def _install_hooks():
             verb = self.method.decode("latin-1")
             nsent = getattr(self, "_c32_sent", 0)
             self._c32_sent = nsent + 1
+            prev = getattr(self, "_c32_encoder", None)
+            self._c32_encoder = encoder
+            if nsent and self.body_stream is not None and getattr(prev, "body_stream_started", False):
+                w.unsafe.append(verb)
             w.sends.append((idx, verb, cls))
             w.op_verbs.append(verb)
             if nsent:
                 w.sim.probe("client_retry_sent_twice")
                 w.retried.append(verb)
             spec = w.pending
-            if spec is not None and w.armed is None and not nsent and spec["cls"] in ("any", cls):
+            if spec is not None and w.armed is None and not nsent and spec["cls"] in ("any", cls, "verb:" + verb):
                 if w.matching == spec["nth"]:
                     w.ww.resets.append({"req": idx, "kind": spec["kind"], "write": spec.get("write", 0)})
                     w.armed = {"req": idx, "verb": verb, "cls": cls, "kind": spec["kind"], "stream": self.body_stream is not None, "encoder": encoder, "reset": w.ww.resets[-1]}
@@ -712,13 +733,20 @@ def execute(sim, plan):
             fired_any = True
             sim.probe(f"reset_{armed['kind']}_{armed['cls']}")
             sim.probe("reset_fired")
+            sim.probe(f"reset_at_{armed['verb']}")
+        if watch.unsafe:
+            sim.fail(
+                "resent_consumed_stream",
+                ["resent_consumed_stream", watch.unsafe[0]] + tag,
+                f"op {i} {opk}: the client sent {watch.unsafe[0]} a second time after its body stream had started (the stream cannot be replayed: the second request carries a truncated body); reset {tag}",
+            )
         must_hide = True
         if fired:
             if armed["kind"] == "send":
                 must_hide = not (armed["stream"] and getattr(armed["encoder"], "body_stream_started", False))
             else:
                 must_hide = armed["cls"] in ("read", "idem")
-        if a_ok and not b_ok and fired and not must_hide:
+        if not b_ok and fired and not must_hide:
             # ---- relaxed oracle: a failure the client is allowed to report ---------------
             sim.probe("relaxed_failure")
             sim.probe(f"relaxed_failure_{armed['cls']}")
@@ -774,9 +802,9 @@ def execute(sim, plan):
                 if opk == "commit" and op["spec"]["id"] in obs_b["revs"]:
                     redo = {"op": "set_last", "revno": obs_a["br"]["tip"][0], "rev": op["spec"]["id"]}
                 rb2 = B.run(redo)
-                if isinstance(rb2, Failed):
+                if isinstance(rb2, Failed) and a_ok:
                     sim.fail("recovery", ["recovery", opk] + tag, f"op {i} {opk}: re-running the operation on B after break_lock failed: {rb2!r}")
-                if redo is op and norm(rb2) != norm(ra) and opk not in ("pull", "push", "stack"):
+                if redo is op and a_ok and norm(rb2) != norm(ra) and opk not in ("pull", "push", "stack"):
                     sim.fail("recovery", ["recovery", opk] + tag + ["result"], f"op {i} {opk}: re-run on B returned {norm(rb2)!r}, A returned {norm(ra)!r}")
                 obs_b = observe(B, names, mh, seen_b)
                 check_readable(obs_b, "B", opk)
